@@ -14,6 +14,7 @@ import (
 	"net/netip"
 	"reflect"
 	"runtime"
+	"sort"
 	"strconv"
 	"strings"
 
@@ -99,6 +100,27 @@ func bencBody(sub int, class string) []byte {
 		2: "d8:msg_typei0e5:piecei0ee",
 	}
 	req := map[int]string{0: "", 1: "", 2: "8:msg_typei0e5:piecei0e"}
+	if strings.HasPrefix(class, "kv:") {
+		// one known key with a value of an unexpected shape, the other required keys as in the valid body
+		parts := strings.SplitN(class[3:], ":", 2)
+		shapes := map[string]string{"estr": "0:", "str0": "1:0", "strnul": "1:\x00", "str1": "1:1", "strx": "3:abc", "int0": "i0e", "int1": "i1e",
+			"intneg": "i-1e", "intbig": "i4294967296e", "list": "le", "dict": "de", "liststr": "l1:ae", "dictint": "d1:ai1ee", "dictstr": "d1:a0:e"}
+		d := map[string]string{}
+		if sub == 2 {
+			d["msg_type"], d["piece"] = "i0e", "i0e"
+		}
+		d[parts[0]] = shapes[parts[1]]
+		keys := make([]string, 0, len(d))
+		for k := range d {
+			keys = append(keys, k)
+		}
+		sort.Strings(keys)
+		b := "d"
+		for _, k := range keys {
+			b += fmt.Sprintf("%d:%s%s", len(k), k, d[k])
+		}
+		return []byte(b + "e")
+	}
 	switch class {
 	case "valid":
 		return []byte(valid[sub])
